@@ -91,6 +91,9 @@ def schedules(draw):
     return dict(base=base, tstep=tstep, fixt=fixt, tf=tf, bounds=bounds, events=events, opts=opts)
 
 
+SHARED_T = [('REGCA1', 'Tg'), ('REPCA1', 'Tfltr'), ('REGCP1', 'Tg'), ('REGCV1', 'Tc')]
+
+
 def materialise(ss, c):
     """Translate abstract events into devices (before setup). Returns the list of concrete event records."""
     lines = list(ss.Line.idx.v)
@@ -112,6 +115,12 @@ def materialise(ss, c):
                 rec.update(model='PQ', dev=pqs[e['sel'] % len(pqs)], field='p0')
             elif e['target'] == 'line_b':
                 rec.update(model='Line', dev=lines[e['sel'] % len(lines)], field='b')
+            elif e['target'] == 'shared_T' and any(getattr(ss, m).n for m, f in SHARED_T):
+                # a time constant that is the time constant of several differential equations of one device
+                cands = [(m, f) for m, f in SHARED_T if getattr(ss, m).n]
+                m, f = cands[e['sel'] % len(cands)]
+                gidx = list(getattr(ss, m).idx.v)
+                rec.update(model=m, dev=gidx[(e['sel'] // 7) % len(gidx)], field=f)
             elif e['target'] == 'gen_M' and (ss.GENROU.n or ss.GENCLS.n):
                 gm = 'GENROU' if ss.GENROU.n else 'GENCLS'
                 gidx = list(ss.models[gm].idx.v)
